@@ -104,7 +104,7 @@ EDITS = ["add-type", "remove-field", "add-field", "retype-field", "add-optional-
          "deprecation-reason", "add-union-member", "remove-union-member", "add-interface-implementation",
          "remove-interface-implementation", "add-directive", "remove-directive", "add-directive-location", "remove-directive-location",
          "add-directive-argument", "remove-directive-argument", "retype-directive-argument", "remove-type", "change-leaf-kind",
-         "mirror-nullability", "mirror-nullability"]
+         "mirror-nullability", "mirror-nullability", "rename-enum-value"]
 
 
 def apply_edit(draw, s, kind, uid, protected=None):
@@ -258,6 +258,22 @@ def apply_edit(draw, s, kind, uid, protected=None):
         if _has_default_of(s, n):
             return None
         return _default_edit(draw, s, f, out, ["InputFieldDefaultValueChange"], [n, f["name"]])
+    if kind == "rename-enum-value":
+        # a member is renamed: clients lose the old name (breaking) and gain the new one; a code-built schema keeps the
+        # member's internal value (cases() carries it over), which must not make the two look like the same member
+        if not enums:
+            return None
+        n = draw(st.sampled_from(enums))
+        vs = types[n]["values"]
+        if len(vs) < 2 or _has_default_of(s, n):
+            return None
+        v = draw(st.sampled_from(vs))
+        oldname, newname = v["name"], "RENAMED%d" % uid
+        v["name"] = v["value"] = newname
+        e1 = out(["EnumValueRemoved"], [n, oldname], True)
+        e2 = out(["EnumValueAdded"], [n, newname], False)
+        e2["renamed_from"] = oldname
+        return [e1, e2]
     if kind in ("add-enum-value", "remove-enum-value"):
         if not enums:
             return None
@@ -458,14 +474,21 @@ def _valid_input(s, tstr):
 
 
 # ------------------------------------------------------------------ running
-def build(spec, mode, order=None):
+def build(spec, mode, order=None, internals=None):
+    """internals: {enum name: {member name: internal python value}} for code-built schemas (clients never see them)"""
     spec = GS.Spec(spec)
     if order:
         spec = GS.Spec(dict(spec, order=order))
     if mode == "sdl":
         from py_gql import build_schema
         return build_schema(GS.to_sdl(H.sdl_view(spec)))
-    return GS.build_code(H.sdl_view(spec))
+    view = H.sdl_view(spec)
+    for n, members in (internals or {}).items():
+        if n in view["types"] and view["types"][n]["kind"] == "enum":
+            for v in view["types"][n]["values"]:
+                if v["name"] in members:
+                    v["value"] = members[v["name"]]
+    return GS.build_code(view)
 
 
 def changes(old, new):
@@ -477,8 +500,9 @@ def check_case(case, ctx=None):
     from py_gql.exc import GraphQLError
     vios = []
     try:
-        old = build(case["old"], case["mode_old"])
-        old2 = build(case["old"], case["mode_alt"], case["order_alt"])
+        ints = case.get("internals") or {}
+        old = build(case["old"], case["mode_old"], None, ints.get("old"))
+        old2 = build(case["old"], case["mode_alt"], case["order_alt"], ints.get("alt"))
     except GraphQLError:
         return None
     # (1) equal structures -> empty diff
@@ -498,8 +522,8 @@ def check_case(case, ctx=None):
     except GS.Reject:
         return None
     try:
-        new = build(case["new"], case["mode_new"])
-        new2 = build(case["new"], case["mode_new"], case["order_new_alt"])
+        new = build(case["new"], case["mode_new"], None, ints.get("new"))
+        new2 = build(case["new"], case["mode_new"], case["order_new_alt"], ints.get("new"))
     except GraphQLError:
         return None  # the edit combination produced an invalid schema: outside the domain
     try:
@@ -583,7 +607,17 @@ def cases(draw):
         else:
             new = GS.Spec(backup)   # an edit that turned out not to apply must not leave a half-made change behind
     ops = [draw(GD.requests(GS.Spec(old), multi_op=False))["text"] for _ in range(2)] if edits else []
-    return {"old": old, "new": json.loads(json.dumps(new)), "edits": edits, "operations": ops,
+    # internal enum values of code-built schemas: `alt` differs from `old` in nothing but them; a renamed member keeps its value
+    ints = {"old": {}, "alt": {}, "new": {}}
+    for n, t in old["types"].items():
+        if t["kind"] == "enum" and draw(st.booleans()):
+            ints["old"][n] = {v["name"]: 100 + i for i, v in enumerate(t["values"])}
+            ints["alt"][n] = {v["name"]: 200 + i for i, v in enumerate(t["values"])}
+            ints["new"][n] = dict(ints["old"][n])
+    for e in edits:
+        if e.get("renamed_from") and e["tokens"][0] in ints["new"] and e["renamed_from"] in ints["new"][e["tokens"][0]]:
+            ints["new"][e["tokens"][0]][e["tokens"][1]] = ints["new"][e["tokens"][0]].pop(e["renamed_from"])
+    return {"old": old, "internals": ints, "new": json.loads(json.dumps(new)), "edits": edits, "operations": ops,
             "mode_old": draw(st.sampled_from(["sdl", "code"])), "mode_alt": draw(st.sampled_from(["sdl", "code"])),
             "mode_new": draw(st.sampled_from(["sdl", "code"])),
             "order_alt": list(draw(st.permutations(old["order"]))), "order_new_alt": list(draw(st.permutations(new["order"])))}
